@@ -373,6 +373,11 @@ func parent(args []string) int {
 	tmpdir := filepath.Join(vd, "evidence", "tmp", id)
 	os.RemoveAll(tmpdir)
 	os.MkdirAll(tmpdir, 0o755)
+	if old, _ := filepath.Glob(filepath.Join(vd, "evidence", "replay", id+"-*")); len(old) > 0 {
+		for _, o := range old {
+			os.Remove(o)
+		}
+	}
 	os.MkdirAll(filepath.Join(vd, "evidence", "replay"), 0o755)
 
 	total := p.NumCases(tier)
